@@ -354,7 +354,7 @@ class Machine:
             self._return()
 
     def _return(self) -> None:
-        self._call_stack.unwind_loops()
+        self._discard_loop_values(self._call_stack.unwind_loops())
         self._reg.pc = self._call_stack.get_return()
         self._call_stack.exit_routine()
 
@@ -377,10 +377,17 @@ class Machine:
                 self._reg.pc += 1
 
     def _loop(self) -> None:
-        self._call_stack.enter_loop()
+        self._call_stack.enter_loop(self._vm_math.stack_depth)
 
     def _end_loop(self) -> None:
-        self._call_stack.exit_loop()
+        self._discard_loop_values(self._call_stack.exit_loop())
+
+    def _discard_loop_values(self, eval_depth) -> None:
+        # A loop over lights pushes the names onto the evaluation stack. If
+        # the loop is left early with a break or a return, drop those that
+        # are still there.
+        if eval_depth is not None:
+            self._vm_math.truncate_stack(eval_depth)
 
     @inject(LightSet)
     def _matrix(self, light_set) -> None:
